@@ -276,3 +276,63 @@ def switch_edge_value(body, a, b):
     if t["else"] == b:
         vals.append("else")
     return vals
+
+
+def natural_loops(body):
+    """[(header, nodes, latches)] of the natural loops of a body (one per header; back edge t -> h with h dominating t),
+    innermost (smallest) first"""
+    s = succs(body)
+    p = preds(body)
+    by_header = {}
+    for t in range(len(s)):
+        for h in s[t]:
+            if dominates(body, h, t):
+                by_header.setdefault(h, set()).add(t)
+    out = []
+    for h, latches in by_header.items():
+        nodes = {h}
+        st = list(latches)
+        while st:
+            n = st.pop()
+            if n in nodes:
+                continue
+            nodes.add(n)
+            st.extend(p[n])
+        out.append((h, nodes, set(latches)))
+    out.sort(key=lambda x: len(x[1]))
+    return out
+
+
+def every_iteration_passes(body, def_blocks, live=None):
+    """For every natural loop that contains one of `def_blocks`: does every path from the loop header to a latch (one completed
+    iteration) pass through a def block — or through the header of an inner loop that contains def blocks and is itself clean (an
+    inner loop that runs zero times contributes the identity of a fold)?  Returns {header: bool} for the loops that contain defs.
+    Paths that leave the loop (`?`, bail, return, panic) complete no iteration and are not considered."""
+    s = succs(body)
+    loops = natural_loops(body)
+    clean = {}
+    defs = set(def_blocks)
+    for h, nodes, latches in loops:
+        if not (nodes & defs):
+            continue
+        inner = [h2 for (h2, n2, _) in loops if h2 != h and h2 in nodes and n2 < nodes and (n2 & defs)]
+        if any(not clean.get(h2, False) for h2 in inner):
+            clean[h] = False
+            continue
+        stops = (defs | set(inner)) - {h}
+        seen, st, ok = set(), [h], True
+        while st and ok:
+            n = st.pop()
+            if n in seen:
+                continue
+            seen.add(n)
+            if n in stops:
+                continue
+            if n in latches:
+                ok = False
+                break
+            for m in s[n]:
+                if m in nodes and m != h and (live is None or m in live):
+                    st.append(m)
+        clean[h] = ok
+    return clean
